@@ -100,8 +100,11 @@ func crashRandPlan(r *rand.Rand) spec.Plan {
 	g.TailP = 0
 	g.ContSleepUS = [2]int{0, 600}
 	g.ContDelayUS = [2]int{300, 1500}
-	g.PFailCont = 0.15
-	g.MaxContFailRun = 1 // a failing continuous check always fails (function of the action alone)
+	g.PFailCont = 0.2
+	// a continuous check that fails at a later run is not "a function of the action alone": such plans are explored
+	// with the termination and consistency rules only (hasFailingCont switches the outcome rule off)
+	g.MaxContFailRun = 3
+	g.PFailPost, g.PFailDeferred = 0.2, 0.25
 	g.NoBlockDelays = true
 	g.PFailSeqAction = 0.2
 	p := g.Plan(r, "p0")
@@ -143,8 +146,23 @@ func crashPlanOf(prop string, seed int, tier string, idx int) (spec.Plan, string
 		}
 		return crashRandPlan(r), "random"
 	}
-	if idx%3 != 2 {
-		return crashBoxPlan(r.Intn(crashBox)), "box-sample"
+	switch idx % 3 {
+	case 0:
+		return crashBoxPlan(r.Intn(crashBoxA)), "box-sample (sequences)"
+	case 1:
+		// check-group box, biased to assignments with at least one failing group
+		for try := 0; ; try++ {
+			k := r.Intn(crashBoxB)
+			fails := false
+			for d, kk := 0, k%243; d < 5; d, kk = d+1, kk/3 {
+				if kk%3 == 2 {
+					fails = true
+				}
+			}
+			if fails || try > 20 {
+				return crashBoxPlan(crashBoxA + k), "box-sample (check groups)"
+			}
+		}
 	}
 	return crashRandPlan(r), "random"
 }
